@@ -861,8 +861,12 @@ func (p *PHYPayload) calculateDownlinkDataMIC(macVersion MACVersion, confFCnt ui
 func EncryptFRMPayload(key AES128Key, uplink bool, devAddr DevAddr, fCnt uint32, data []byte) ([]byte, error) {
 	pLen := len(data)
 	if pLen%16 != 0 {
-		// append with empty bytes so that len(data) is a multiple of 16
-		data = append(data, make([]byte, 16-(pLen%16))...)
+		// pad with empty bytes so that len(data) is a multiple of 16; the padded
+		// copy is a new slice, append() would write the padding (and below the
+		// key-stream) into spare capacity of the caller's slice
+		padded := make([]byte, pLen+16-(pLen%16))
+		copy(padded, data)
+		data = padded
 	}
 
 	block, err := aes.NewCipher(key[:])
